@@ -20,6 +20,9 @@ func (g *Gen) writeCell(st *State, key, elemSort, a, v string) {
 	if g.wlog != nil {
 		g.wlog.add(g, key, elemSort, a, "")
 	}
+	if g.frec != nil {
+		*g.frec = append(*g.frec, frameW{key, "(= r " + a + ")"})
+	}
 }
 
 func (g *Gen) logWholeWrite(key, elemSort, pattern string) {
@@ -730,8 +733,16 @@ func (fr *Frame) execSlice(ins *ssa.Slice, c *blockCtx) {
 			} else {
 				whole := g.loadLeaf(c.st, x.S, xt.Elem())
 				w := g.sc.Define("arrview", whole)
+				// the element view is a second representation of the same memory: materialising it is not a write
+				// (neither for loop write sets nor for the frame)
+				saveLog, saveRec := g.wlog, g.frec
+				g.wlog, g.frec = nil, nil
 				for k := int64(0); k < arr.Len(); k++ {
 					g.writeCell(c.st, ek, es, fmt.Sprintf("(Elem %s %d)", x.S, k), sel(w.S, fmt.Sprint(k)))
+				}
+				g.wlog, g.frec = saveLog, saveRec
+				if g.dry == 0 {
+					g.viewArrs = append(g.viewArrs, frameW{ek, "(and ((_ is Elem) r) (= (ebase r) " + x.S + "))"})
 				}
 				g.arrSync[x.S] = [2]string{g.heap(c.st, wk, g.sortOf(xt.Elem())).S, g.heap(c.st, ek, es).S}
 			}
